@@ -60,7 +60,7 @@ def check(run):
     tot["core"] = s
     # ---- 3. cookie jar: simulated histories; the root-path family is strict, the path family carries a known finding
     nh = 1500 if thorough else 200
-    for cfg, name in (("CookieJar_Hist_root.cfg", "jar_root"), ("CookieJar_Hist.cfg", "jar_paths")):
+    for cfg, name in (("CookieJar_Hist_root.cfg", "jar_root"), ("CookieJar_Hist_v6.cfg", "jar_v6"), ("CookieJar_Hist.cfg", "jar_paths")):
         r = run.tlc_must_pass("CookieJar", cfg, workers=1, heap="4g", timeout=900, simulate="num=%d" % nh, depth=14, name=name)
         cases = os.path.join(run.work, "c18_%s.ndjson" % name)
         n = core.write_cases(core.dedupe_histories(core.parse_cases(r["out"], tag="HIST"), complete=lambda e: True), cases)
@@ -70,10 +70,10 @@ def check(run):
         if s["histories"] != n:
             raise core.Inconclusive("jar driver did not finish")
         tot[name] = s
-    run.evaluations = tot["assembly"]["cases"] + tot["body"]["cases"] + tot["core"]["cases"] + tot["jar_root"]["ops"] + tot["jar_paths"]["ops"]
-    run.traces = tot["assembly"]["cases"] + tot["body"]["cases"] + tot["core"]["cases"] + tot["jar_root"]["histories"] + tot["jar_paths"]["histories"]
+    run.evaluations = tot["assembly"]["cases"] + tot["body"]["cases"] + tot["core"]["cases"] + tot["jar_root"]["ops"] + tot["jar_v6"]["ops"] + tot["jar_paths"]["ops"]
+    run.traces = tot["assembly"]["cases"] + tot["body"]["cases"] + tot["core"]["cases"] + tot["jar_root"]["histories"] + tot["jar_v6"]["histories"] + tot["jar_paths"]["histories"]
     run.nontrivial = (tot["assembly"]["cases_with_both_levels_additive"] + tot["body"]["with_files"] + tot["core"]["behaviours_with_cancel_after_worker_commit"]
-                      + tot["jar_root"]["ops_with_visible_cookies"] + tot["jar_paths"]["ops_with_visible_cookies"])
+                      + tot["jar_root"]["ops_with_visible_cookies"] + tot["jar_v6"]["ops_with_visible_cookies"] + tot["jar_paths"]["ops_with_visible_cookies"])
     run.rule = ("(a) ClientAssemble.tla: every configuration of each pair of request components (header, query, cookie, user agent, referer, path parameter) "
                 "at client and request level over value classes {plain, needs-escaping, empty} is sent twice over an in-memory connection and compared with what "
                 "the spec says arrives; ClientBody.tla: every setter-call sequence of <= 2 form fields (repeated keys, values needing escaping, empty) and <= 2 files "
@@ -81,7 +81,7 @@ def check(run):
                 "order, files with field name, file name and content, raw bytes and content type must arrive as configured; (b) ClientCore.tla: exhaustive model check of the completion/timeout hand-off over pooled objects (the original design "
                 "must violate WriteOwn), and every complete behaviour for 2 requests replayed on the real client through the verif gates (server handler, "
                 "after the worker's CAS, cancel): who gets which response; (c) CookieJar.tla: simulated histories of Set/Get/full HTTP exchanges with Set-Cookie "
-                "updates and deletions/ticks replayed under the virtual clock. Non-trivial = additive-at-both-levels cases + behaviours where the caller gives up "
+                "updates and deletions/ticks replayed under the virtual clock (host names, host:port, IPv6 literals with and without port). Non-trivial = additive-at-both-levels cases + behaviours where the caller gives up "
                 "after the worker committed + jar operations with visible cookies.")
     run.extra.update(tot)
     run.extra["violations_by_check"] = dict(collections.Counter(v["check"] for v in run.violations))
